@@ -40,6 +40,8 @@ pub use self::block::compute_block_layout;
 
 #[cfg(feature = "flexbox")]
 pub use self::flexbox::compute_flexbox_layout;
+#[cfg(all(feature = "flexbox", taffy_verif))]
+pub use self::flexbox::verif_hooks as verif_flexbox_hooks;
 
 #[cfg(feature = "grid")]
 pub use self::grid::compute_grid_layout;
